@@ -1109,7 +1109,17 @@ def selftest():
 
 
 # ---------------------------------------------------------------- framework entry points
+def asyncio_task(arg, col):
+    import sys
+    from . import c18_asyncio
+    c18_asyncio.task(sys.modules[__name__], arg, col)
+
+
 def recheck(case):
+    if case["mode"] == "asyncio":
+        import sys
+        from . import c18_asyncio
+        return c18_asyncio.run_case(sys.modules[__name__], case)[0]
     if case["mode"] == "udp":
         return run_udp(case)[0]
     if case["mode"] == "tcp":
@@ -1173,6 +1183,12 @@ def run(ctx):
             for opts in ALL_OPTS:
                 tasks.append((udp_task, (entry, "v4", opts, "fast", 1, 0, qop)))
     ctx.extra["query_opcodes"] = [0, 4, 1]
+    # the real asyncio backend sockets under a virtual-time event loop
+    for entry in ("asyncio.receive_udp", "asyncio.udp"):
+        for opts in ALL_OPTS:
+            tasks.append((asyncio_task, ("udp", entry, opts)))
+    for entry in ("asyncio.receive_tcp", "asyncio.tcp"):
+        tasks.append((asyncio_task, ("tcp", entry)))
     tasks.append((send_udp_task, None))
     # ---- TCP
     P = {}
